@@ -12,14 +12,13 @@ ID = "C30"
 COQ_DIRS = ["C30", "C43", "C06", "C21", "Lib"]
 PROPERTY_FILE = "C30/Property.v"
 RUN_IMPORTS = "From TV Require Import C43.Model C30.Model C30.Spec C30.Run."
-RUN_FN = "run_case"
-CHECK_FN = "check_case"
-INPUT_TYPE = "input"
+RUN_FN = "run_tcase"
+CHECK_FN = "check_tcase"
+INPUT_TYPE = "tcase"
 
 URLENC = "application/x-www-form-urlencoded"
 MULTI = "multipart/form-data"
 DEFAULT_CFG = [True, 100, 10240]
-D3_SIG = "d3-trailing-backslash-param"
 
 # charset names of RFC 2231 extended values the model knows (C30/Model.v charset_kind)
 MODELLED_CHARSETS = {None, "utf-8", "UTF-8", "utf8", "UTF8", "us-ascii", "US-ASCII", "ascii",
@@ -94,10 +93,6 @@ def value_ok_full(st, v):
     return len(v) > 0 and all(is_scalar(c) for c in v) and (st != "q" or not any(c in FORBIDDEN for c in v))
 
 
-def part_is_d3(p):
-    return p["ns"] == "q" and p["f"] is not None and len(p["n"]) > 0 and p["n"][-1] == 92
-
-
 def part_ok_full(b, p):
     if not value_ok_full(p["ns"], p["n"]):
         return False
@@ -111,7 +106,7 @@ def part_ok_full(b, p):
     return d not in B(p["body"]) and d not in part_header(p)
 
 
-def spec_applies(case, full=True):
+def spec_applies(case):
     sp = case["spec"]
     if sp is None:
         return False
@@ -127,8 +122,6 @@ def spec_applies(case, full=True):
             if not part_ok_full(b, p):
                 return False
         except UnicodeEncodeError:
-            return False
-        if not full and part_is_d3(p):
             return False
     if not (en and len(sp["ps"]) + 1 <= mp and all(len(part_header(p)) <= mh for p in sp["ps"])):
         return False
@@ -158,7 +151,50 @@ def expected(sp):
 
 
 # ---------------------------------------------------------------- implementation runner
+def run_req(case):
+    """HTTPServerRequest(uri, headers, body)._parse_body() under the case's ParseMultipartConfig."""
+    import email.utils
+    from tornado import httputil
+    cfg = httputil.ParseMultipartConfig(enabled=case["cfg"][0], max_parts=case["cfg"][1], max_part_header_size=case["cfg"][2])
+    try:
+        h = httputil.HTTPHeaders()
+        h.add("Host", "x")
+        for n, v in case["hdrs"]:
+            h.add(n, v)
+        req = httputil.HTTPServerRequest(method="POST", uri="/p?" + case["query"], version="HTTP/1.1", headers=h, body=B(case["body"]))
+    except Exception:
+        return G.Tag("InitError")          # the request object could not be built: outside _parse_body
+    oom = []
+    orig = email.utils.collapse_rfc2231_value
+
+    def spy(value, *a, **k):
+        if isinstance(value, tuple) and len(value) == 3 and value[0] not in MODELLED_CHARSETS:
+            oom.append(value[0])
+        return orig(value, *a, **k)
+
+    email.utils.collapse_rfc2231_value = spy
+    old = httputil._DEFAULT_PARSE_BODY_CONFIG
+    httputil.set_parse_body_config(httputil.ParseBodyConfig(multipart=cfg))
+    try:
+        try:
+            req._parse_body()
+        except httputil.HTTPInputError:
+            return G.Tag("OutOfModel") if oom else G.Tag("HTTPInputError")
+        except Exception as e:
+            return G.Tag(type(e).__name__)
+    finally:
+        httputil.set_parse_body_config(old)
+        email.utils.collapse_rfc2231_value = orig
+    if oom:
+        return G.Tag("OutOfModel")
+    d = lambda m: [[k, list(vs)] for k, vs in m.items()]
+    return [d(req.arguments), d(req.query_arguments), d(req.body_arguments),
+            [[k, [[f.filename, f.content_type, f.body] for f in vs]] for k, vs in req.files.items()]]
+
+
 def run_impl(case):
+    if case["entry"] == "req":
+        return run_req(case)
     import email.utils
     from tornado import httputil
     cfg = httputil.ParseMultipartConfig(enabled=case["cfg"][0], max_parts=case["cfg"][1], max_part_header_size=case["cfg"][2])
@@ -217,9 +253,19 @@ def g_spec(sp):
     return "(SMulti %s %s %s)" % (G.gbytes(B(sp["b"])), G.gbool(sp["e"]), G.glist([g_part(p) for p in sp["ps"]], "fpart"))
 
 
+def g_pairs(ps):
+    return G.glist(["(%s, %s)" % (G.gbytes(B(k)), G.gbytes(B(v))) for k, v in ps], "(list N * list N)")
+
+
 def coq_input(case):
     en, mp, mh = case["cfg"]
-    return "(%s, %s, %s, %s, (%s, %s, %s), %s)" % (
+    if case["entry"] == "req":
+        sp = case["spec"]
+        gsp = "RNone" if sp is None else "(RUrl %s %s)" % (g_pairs(sp["qs"]), g_pairs(sp["bs"]))
+        return "(CReq %s %s %s (%s, %s, %s) %s)" % (
+            G.gbytes(B(case["query"])), G.glist(["(%s, %s)" % (G.gbytes(B(n)), G.gbytes(B(v))) for n, v in case["hdrs"]], "(str * str)"),
+            G.gbytes(B(case["body"])), G.gbool(en), G.gn(mp), G.gn(mh), gsp)
+    return "(CForm (%s, %s, %s, %s, (%s, %s, %s), %s))" % (
         G.gbool(case["entry"] == "body"), g_text(case["hd"]), G.gbytes(B(case["body"])), G.gbool(case["ce"]),
         G.gbool(en), G.gn(mp), G.gn(mh), g_spec(case["spec"]))
 
@@ -229,7 +275,37 @@ def is_ok(o):
     return isinstance(o, list) and not isinstance(o, G.Tag)
 
 
+def merged(qa, ba):
+    d = {k: list(vs) for k, vs in qa}
+    for k, vs in ba:
+        d.setdefault(k, []).extend(vs)
+    return [[k, vs] for k, vs in d.items()]
+
+
+def req_spec_applies(case):
+    sp = case["spec"]
+    return (sp is not None and case["query"] == L(encode_url(sp["qs"])) and B(case["body"]) == encode_url(sp["bs"])
+            and case["hdrs"] == [["Content-Type", URLENC]])
+
+
+def py_check_req(case, o):
+    if isinstance(o, G.Tag):
+        return str(o) in ("HTTPInputError", "OutOfModel", "InitError")
+    if not (is_ok(o) and len(o) == 4):
+        return False
+    # the merge law, on the implementation's own dictionaries
+    if o[0] != merged(o[1], o[2]):
+        return False
+    if req_spec_applies(case):
+        sp = case["spec"]
+        g = lambda ps: expected({"k": "url", "ps": ps})[0]
+        return o == [g(sp["qs"] + sp["bs"]), g(sp["qs"]), g(sp["bs"]), []]
+    return True
+
+
 def py_check(case, o):
+    if case["entry"] == "req":
+        return py_check_req(case, o)
     if isinstance(o, G.Tag):
         if str(o) not in ("HTTPInputError", "OutOfModel"):
             return False
@@ -241,15 +317,13 @@ def py_check(case, o):
             n = sum(len(vs) for _, vs in o[0]) + sum(len(vs) for _, vs in o[1])
             if n > case["cfg"][1]:
                 return False
-    if spec_applies(case, full=True):
+    if spec_applies(case):
         return is_ok(o) and o == expected(case["spec"])
     return True
 
 
 def signature(case, o):
     sp = case.get("spec")
-    if sp and sp["k"] == "multi" and any(part_is_d3(p) for p in sp["ps"]):
-        return D3_SIG
     if isinstance(o, G.Tag):
         return "c30-escaped-" + str(o)
     if isinstance(o, list) and len(o) == 2 and isinstance(o[0], G.Tag):
@@ -258,6 +332,8 @@ def signature(case, o):
 
 
 def nontrivial(case, o):
+    if case["entry"] == "req":
+        return ("req", case["query"], tuple(map(tuple, case["hdrs"])), case["body"], tuple(case["cfg"]))
     return (case["entry"], tuple(case["hd"]), case["body"], case["ce"], tuple(case["cfg"]))
 
 
@@ -270,8 +346,11 @@ def classify(case, o):
         n = sum(len(vs) for _, vs in o[0]) + sum(len(vs) for _, vs in o[1]) if is_ok(o) else -1
         yield "result=ok/%s" % ("0" if n == 0 else "1" if n == 1 else "2-3" if n < 4 else "4+")
     sp = case["spec"]
+    if case["entry"] == "req":
+        yield "roundtrip-checked=" + str(req_spec_applies(case))
+        return
     if sp is not None:
-        yield "roundtrip-checked=" + str(spec_applies(case, True))
+        yield "roundtrip-checked=" + str(spec_applies(case))
         if sp["k"] == "multi":
             for p in sp["ps"]:
                 yield "name-style=" + p["ns"]
@@ -285,7 +364,17 @@ def classify(case, o):
 
 def shrink(case):
     sp = case["spec"]
-    if sp is not None and sp["k"] == "multi" and spec_applies(case, True):
+    if case["entry"] == "req":
+        for key in ("query", "body"):
+            v = case[key]
+            if v:
+                yield dict(case, spec=None, **{key: v[: len(v) // 2]})
+                yield dict(case, spec=None, **{key: v[len(v) // 2:]})
+        if len(case["hdrs"]) > 1:
+            for i in range(len(case["hdrs"])):
+                yield dict(case, spec=None, hdrs=case["hdrs"][:i] + case["hdrs"][i + 1:])
+        return
+    if sp is not None and sp["k"] == "multi" and spec_applies(case):
         # shrink the form and re-encode
         ps = sp["ps"]
         for i in range(len(ps)):
@@ -463,6 +552,55 @@ def url_cases(rng, n):
     return out
 
 
+def mk_req(query, hdrs, body, cfg=None, spec=None, tag="req"):
+    return {"entry": "req", "query": L(query), "hdrs": [list(h) for h in hdrs], "body": L(body), "cfg": list(cfg or DEFAULT_CFG),
+            "spec": spec, "tag": tag, "hd": [], "ce": False}
+
+
+def rand_pairs(rng):
+    ps = []
+    keys = [b"a", b"b", b"", b"k 1", b"\xe9", b"a&=", b"z"]
+    for _ in range(rng.choice([0, 1, 2, 3, 4])):
+        k = rng.choice(keys) if rng.random() < 0.8 else bytes(rng.randrange(256) for _ in range(rng.randrange(3)))
+        v = bytes(rng.choice([rng.randrange(256), rng.choice(b"ab&=+% ")]) for _ in range(rng.randrange(0, 4)))
+        ps.append([L(k), L(v)])
+    return ps
+
+
+def req_cases(rng, n):
+    """The server-side path: query arguments, then _parse_body merging the form into them."""
+    out = []
+    ct_names = ["Content-Type", "content-type", "CONTENT-TYPE", "Content-type"]
+    ce_names = ["Content-Encoding", "content-encoding", "CONTENT-ENCODING"]
+    for _ in range(n):
+        qs, bs = rand_pairs(rng), rand_pairs(rng)
+        sp = {"qs": qs, "bs": bs}
+        out.append(mk_req(encode_url(qs), [("Content-Type", URLENC)], encode_url(bs), spec=sp, tag="req-url"))
+        # variants: header-name case, extra headers, Content-Encoding, mutated query / body, second Content-Type
+        hdrs = [(rng.choice(ct_names), rng.choice([URLENC, URLENC + "; charset=utf-8", "text/plain", MULTI + "; boundary=B"]))]
+        if rng.random() < 0.3:
+            hdrs.append((rng.choice(ce_names), rng.choice(["gzip", "identity"])))
+        if rng.random() < 0.3:
+            hdrs.insert(rng.randrange(len(hdrs) + 1), (rng.choice(["X-A", "Accept", "content-length"]), "1"))
+        if rng.random() < 0.15:
+            hdrs.append((rng.choice(ct_names), "x/y"))
+        q = mutate(rng, encode_url(qs)) if rng.random() < 0.5 else encode_url(qs)
+        b = mutate(rng, encode_url(bs)) if rng.random() < 0.5 else encode_url(bs)
+        q = q.replace(b"\r", b"").replace(b"\n", b"")
+        out.append(mk_req(q, hdrs, b, spec=sp, tag="req-var"))
+        # a multipart form through the request, with query arguments sharing names
+        f = gen_form(rng)
+        if f["ps"] and rng.random() < 0.7:
+            qs = qs + [[L(U(f["ps"][0]["n"]).encode("latin-1", "replace")), "q"]]
+        hd = [(rng.choice(ct_names), MULTI + "; boundary=" + f["b"])]
+        if rng.random() < 0.15:
+            hd.append((rng.choice(ce_names), "gzip"))
+        out.append(mk_req(encode_url(qs), hd, encode_multipart(f), cfg=rng.choice([DEFAULT_CFG, [True, len(f["ps"]), 10240], [False, 100, 10240]]), tag="req-multi"))
+    out.append(mk_req(b"", [], b"a=1", tag="req-noct"))
+    out.append(mk_req(b"a=1&a=2", [("Content-Type", URLENC)], b"a=3&b=4&a=5", spec={"qs": [["a", "1"], ["a", "2"]], "bs": [["a", "3"], ["b", "4"], ["a", "5"]]}, tag="req-url"))
+    return out
+
+
 def limit_cases(rng, sp):
     """ParseMultipartConfig values around the form's part count and largest header."""
     n = len(sp["ps"])
@@ -482,7 +620,7 @@ def simple_part(name, style="q", file=None, body="v"):
 
 def corpus_cases():
     out = []
-    # D3 (open finding): quoted name ending in a backslash, followed by filename
+    # D3 (fixed 8596f7f): quoted name ending in a backslash, followed by filename
     sp = {"k": "multi", "b": "B", "e": False, "ps": [simple_part("a\\", "q", {"fn": T("f.txt"), "st": "q", "ct": T("text/plain")}, "Foo")]}
     out.append(mk("multi", b"B", encode_multipart(sp), spec=sp, tag="corpus-d3"))
     # D1 (fixed 288c8bb): part header that is not UTF-8, direct entry
@@ -533,6 +671,11 @@ def gen_cases(rng, tier):
                 out.append(form_case(rng, sp, entry=entry, tag="form-styles"))
     for sp in forms[: (6 if quick else 50)]:
         out += limit_cases(rng, sp)
+    # limits on a header with multi-byte characters (bytes, not characters, are counted), both styles
+    for st in "qx":
+        sp = {"k": "multi", "b": "B", "e": True, "ps": [simple_part("n\u00e9\u20ac", "q", {"fn": T("\u20ac \U0001f600.txt"), "st": st, "ct": T("text/plain")}, "Foo"),
+                                                      simple_part("z", "q", None, "v")]}
+        out += limit_cases(rng, sp)
     for _ in range(110 if quick else 900):
         b, body = gen_raw(rng)
         out.append(raw_case(rng, b, body, "raw"))
@@ -549,6 +692,12 @@ def gen_cases(rng, tier):
     for hl in HEADER_LINES:
         out.append(mk("multi", b"B", b"--B\r\n" + hl + b"\r\n\r\nv\r\n--B--", tag="header-line"))
         out.append(mk("multi", b"B", b"--B\r\nContent-Disposition: form-data; name=n\r\n" + hl + b"\r\n\r\nv\r\n--B--", tag="header-line"))
+    out += req_cases(rng, 25 if quick else 250)
+    # the _parseparam scanner: every tail of <= 3 (thorough: <= 4 over 7 letters, below) characters over DQUOTE \ ; a
+    for n in range(0, 4):
+        for seq in itertools.product(['"', "\\", ";", "a"], repeat=n):
+            tail = "".join(seq).encode()
+            out.append(mk("multi", b"B", b"--B\r\nContent-Disposition: form-data; name=n; filename=" + tail + b"; x=y\r\n\r\nv\r\n--B--", tag="scan-param"))
     if not quick:
         out += exhaustive(rng)
     return [c for c in out if lower_safe(c)]
@@ -580,12 +729,11 @@ LEVEL_TEXT = ("Machine-checked (Coq) model of parse_body_arguments / parse_multi
               "losslessness of the urlencoded encoding and of the multipart encoding (quoted-string and RFC 2231 parameters, any boundary of "
               "RFC 2046 bchars whose delimiter occurs in no part) for every form; the model is compared with the implementation on generated "
               "forms, their single-byte mutations, structured malformed bodies and limit values.")
-LEVEL_NOTE = ("Trusted: Coq kernel/vm_compute; the hand-written model (tied by correspondence); C43's split_params model of the _parseparam loop; "
-              "Python codec registry outside the modelled charsets (reported as OutOfModel); str.lower above U+00FF. Open finding D3 "
-              "(quoted value ending in a backslash followed by another parameter) is excluded from the round-trip theorem and reported.")
+LEVEL_NOTE = ("Trusted: Coq kernel/vm_compute; the hand-written model (tied by correspondence); "
+              "Python codec registry outside the modelled charsets (reported as OutOfModel); str.lower above U+00FF.")
 TECHNIQUE = "Coq proofs (induction over parts/bytes, substring lemmas, UTF-8 and percent-coding round trips) + differential correspondence via vm_compute"
 TRUSTED_BASE = [
-    "C43.Model.split_params as the net effect of the _parseparam find/count loop; C06.Model helpers for header lines; C21.Model parse_qs_bytes",
+    "the scanner scan_params as the meaning of the _PARAM_RE regular expression of _parseparam; C43.Model decode_params helpers; C06.Model helpers for header lines; C21.Model parse_qs_bytes",
     "email.utils.decode_params / collapse_rfc2231_value / urllib.parse.unquote are hand-modelled from CPython 3.12 sources",
     "RFC 2231 charsets other than utf-8/us-ascii/latin-1/unknown-codec are outside the model (harness marks them OutOfModel by spying on collapse_rfc2231_value)",
     "str.lower is exact up to U+00FF only; the generator drops bodies with cased characters above U+00FF",
